@@ -94,9 +94,12 @@ class Filter:
                     continue
                 if from_tubid is not None and not e['from'].startswith(from_tubid):
                     continue
-                if (strip_facility is not None
-                    and e['d'].get('facility', "").startswith(strip_facility)):
-                    continue
+                if strip_facility is not None:
+                    # an event may carry facility=None or a non-text facility
+                    facility = e['d'].get('facility', "")
+                    if (isinstance(facility, str)
+                        and facility.startswith(strip_facility)):
+                        continue
             copied += 1
             flogfile.serialize_raw_wrapper(newfile, e)
         newfile.close()
